@@ -184,3 +184,10 @@ func (rw *RemoteWrapper) Exists(ctx context.Context, path string, key string) (b
 	// Check if the file exists in the remote cache
 	return rw.remote.Exists(ctx, path, key)
 }
+
+// ExistsRemote checks if a file exists in the remote cache, regardless of the local file
+// system cache. Writers use it to decide whether an upload can be skipped: a file that is
+// only present locally still has to be written through to the remote cache.
+func (rw *RemoteWrapper) ExistsRemote(ctx context.Context, path string, key string) (bool, error) {
+	return rw.remote.Exists(ctx, path, key)
+}
